@@ -549,6 +549,11 @@ func (f *fam) calls() {
 		}
 	}
 	// css, globals, literals, raw text
+	for _, b := range []core.V{core.VStr(""), core.VStr("base"), core.VStr("<b>"), core.VInt(0), core.VNull(), core.VBool(false)} {
+		for _, ta := range []string{"true", "false"} {
+			f.add("misc", "css,base-values", one(cmds(core.CCss(vB, "suf"), txt("|"), core.CCss(core.EBin("elvis", vB, core.EStr("")), "s2")), dm("b", b), ta))
+		}
+	}
 	f.add("misc", "css", one(cmds(core.CCss(nil, "cls"), txt(" "), core.CCss(vB, "suf"), txt(" "), core.CCss(core.EBin("add", vB, core.EStr("x")), "s2"), txt(" "), core.CCss(vA, "n")), dm("a", core.VInt(4), "b", core.VStr("base")), "true"))
 	g := one(cmds(pr(core.EGlobal("G_INT")), txt("|"), pr(core.EGlobal("G_STR")), txt("|"), pr(core.EGlobal("app.FLAG")), txt("|"), pr(core.EGlobal("G_F")), txt("|"), pr(core.EBin("add", core.EGlobal("G_INT"), core.EGlobal("G_F"))),
 		core.CIf(cmds(core.CBr(core.EGlobal("app.FLAG"), cmds(txt("on")))), core.Opt(true, cmds(txt("off")))), pr(core.EGlobal("G_NULL")), pr(core.EGlobal("G_NEG"))), nil, "true")
